@@ -62,6 +62,35 @@ func propC09copy(a *Analysis, r *Registry, b *B) {
 			if !b.EqRF(rule, construct+"/len", b.pos(fn), at.Args[0], S.MakeFn("len", src), "the copy has the length of the original") {
 				return
 			}
+			// filled by copy(dst, src) with dst read back from where the fresh slice was put
+			// (`dup.Xs = make(…); copy(dup.Xs, s.Xs)`): the copy follows the make in its block,
+			// or lies on every path to the return
+			var ms *ssa.MakeSlice
+			fc.Ctx.Instrs(func(in ssa.Instruction) {
+				if m, ok := in.(*ssa.MakeSlice); ok && fc.Val(m).Equal(v) {
+					ms = m
+				}
+			})
+			copied := false
+			fc.Ctx.Instrs(func(in ssa.Instruction) {
+				c, ok := in.(*ssa.Call)
+				if !ok || ms == nil {
+					return
+				}
+				if bi, isB := c.Call.Value.(*ssa.Builtin); !isB || bi.Name() != "copy" {
+					return
+				}
+				if !fc.Val(c.Call.Args[0]).Equal(v) || !fc.Val(c.Call.Args[1]).Equal(src) {
+					return
+				}
+				if c.Block() == ms.Block() || fc.Ctx.Dominates(c.Block(), rets[0].Block()) {
+					copied = true
+				}
+			})
+			if copied {
+				r.OK(rule, construct, b.pos(fn), "a fresh slice of the same length filled by copy")
+				return
+			}
 			var st *ssa.Store
 			n := 0
 			fc.Ctx.Instrs(func(in ssa.Instruction) {
